@@ -441,16 +441,19 @@ ShapeVerdict(c, obs) ==
          ELSE GridV(obs, a[1], a[2], a[3], a[4], a[5])
     [] OTHER -> "free"
 \* ---- derived operations: totality and side-effect freedom -----------------------------------------
-\* Every public query/derivation must return on every built path.  The methods whose documentation says "returns
-\* a new path" (or, for the boolean operations and Settle, "returns the ... path" with nothing said about working in
-\* place) must leave Data() of the receiver and of every argument (paths and float slices) bit-identical.
-\* Transform ("modifies the path in-place") and Gridsnap ("This operation is in-place") are exempt by their
-\* documentation; Translate and Scale are documented "returns a new path".
+\* Every public query/derivation must return on every built path (for finite arguments, lattice or not: the driver
+\* also passes adversarial finite dash offsets such as -1e-17, one period of a decimal pattern, +-1e300).
+\* No method may change Data() of its receiver unless its documentation says it works in place (InPlaceOps: Transform
+\* "modifies the path in-place", Gridsnap "This operation is in-place") - this covers the pure queries (CCW, Filling,
+\* Bounds, Length, Contains, ToSVG, scanners ...) as well as the derivations.  The methods whose documentation says
+\* "returns a new path" (or, for the boolean operations and Settle, "returns the ... path" with nothing said about working
+\* in place) must in addition leave every argument (paths and float slices) bit-identical.  Translate and Scale are
+\* documented "returns a new path".
 NewPathOps == {"Copy", "Flatten", "ReplaceArcs", "XMonotone", "Reverse", "Dash", "Offset", "Stroke",
                "Settle", "And", "Or", "Xor", "Not", "DivideBy", "Translate", "Scale"}
 InPlaceOps == {"Transform", "Gridsnap"}
 \* a derived-operation event logged by the driver: [op, ret (returned without panic/timeout), recv, args (unchanged)]
-DeriveOK(ev) == ev.ret /\ (ev.op \in NewPathOps => ev.recv /\ ev.args)
+DeriveOK(ev) == ev.ret /\ (ev.op \notin InPlaceOps => ev.recv) /\ (ev.op \in NewPathOps => ev.args)
 Header == [hdr |-> TRUE, newpath |-> NewPathOps, inplace |-> InPlaceOps]
 HdrInv == (hist = <<>>) => PrintT("@@" \o ToJson(Header))
 
